@@ -496,8 +496,11 @@ func (c *Context) onRestart(message *RestartMessage, behavior vivid.Behavior) {
 	// 	return
 	// }
 
-	// 标记正在重启
-	atomic.StoreInt32(&c.state, killing) // 取代上方 CAS 注释
+	// 标记正在重启。该 Actor 可能已因并发的 Kill 处于 killing 状态（例如正在等待子 Actor 结束）：
+	// 此时不能再进入重启流程，否则它会在子 Actor 结束后"复活"，而等待其 OnKilled 的父 Actor 永远无法结束
+	if !atomic.CompareAndSwapInt32(&c.state, running, killing) {
+		return
+	}
 	c.restarting = message
 	c.Logger().Debug("receive restart", log.String("path", c.ref.GetPath()), log.String("reason", message.Reason), log.Any("fault", message.Fault), log.String("stack", string(message.Stack)))
 
